@@ -467,6 +467,7 @@ func (o *poolObs) checkPending(s *Sim, where string) *eval.BlockEvaluator {
 	s.stat("c44.checks", 1)
 	next := s.latest + 1
 	seen := map[transactions.Txid]int{}
+	leases := map[string]transactions.SignedTxn{}
 	n := 0
 	for gi, grp := range pg {
 		if len(grp) == 0 {
@@ -484,6 +485,17 @@ func (o *poolObs) checkPending(s *Sim, where string) *eval.BlockEvaluator {
 			if r, ok := o.committed[id]; ok {
 				s.violate("C44", "pending-committed", "", fmt.Sprintf("%s (latest block %d): transaction %s is pending in the pool (group #%d) but was committed in block %d", where, s.latest, id.String()[:8], gi, r))
 				return nil
+			}
+			if tx.Txn.Lease != ([32]byte{}) {
+				// independent of the evaluator's own duplicate check: two pending transactions of one sender under one
+				// lease can never both commit (the first to commit in round r >= next holds the lease through its
+				// LastValid >= r, and the other is evaluated after it in the same or a later block while it is pending)
+				lk := string(tx.Txn.Sender[:]) + string(tx.Txn.Lease[:])
+				if prev, dup := leases[lk]; dup {
+					s.violate("C44", "lease-held-twice", "", fmt.Sprintf("%s (latest block %d): pending transactions %s (last valid %d) and %s (last valid %d) of %s hold the same lease %x", where, s.latest, prev.ID().String()[:8], prev.Txn.LastValid, id.String()[:8], tx.Txn.LastValid, shortAddr(tx.Txn.Sender), tx.Txn.Lease[:2]))
+					return nil
+				}
+				leases[lk] = tx
 			}
 			if tx.Txn.LastValid < next {
 				s.violate("C44", "expired-kept", "", fmt.Sprintf("%s (latest block %d): pending transaction %s has LastValid %d < next round %d", where, s.latest, id.String()[:8], tx.Txn.LastValid, next))
